@@ -1,9 +1,11 @@
 /-
 `vmodel`: line-protocol driver of the executable Lean model.
 Reads one case per line on stdin, prints `<stream> <id> MODEL <observation>` per case.
-Usage: `vmodel [--fixes <6 digits 0/1: f1 f2 f3 f4 f5 f2b>]`.
+Usage: `vmodel [--fixes <digits 0/1: f1 f2 f3 f4 f5 f2b f8 f10>]`.
 -/
 import Vibrato.Driver.Tok
+import Vibrato.Driver.Corpus
+import Vibrato.Driver.Rewriter
 
 open Vibrato Vibrato.Driver
 
@@ -12,7 +14,10 @@ structure DState where
 
 def parseFixes (s : String) : Fixes :=
   let b (i : Nat) : Bool := (s.toList.getD i '1') == '1'
-  ⟨b 0, b 1, b 2, b 3, b 4, b 5⟩
+  ⟨b 0, b 1, b 2, b 3, b 4, b 5, b 6, b 7⟩
+
+/-- the tokens of a case before the implementation's observation -/
+def input (rest : List String) : List String := rest.takeWhile (· ≠ "IMPL")
 
 def stepLine (fx : Fixes) (st : DState) (line : String) : DState × String :=
   match Wire.tokens line with
@@ -24,6 +29,14 @@ def stepLine (fx : Fixes) (st : DState) (line : String) : DState × String :=
       | none => st
     (st', s!"def {name} MODEL {obs}")
   | "tok" :: id :: rest => (st, s!"tok {id} MODEL {Tok.handleTokP fx st.dicts rest}")
+  | "rewrite" :: id :: rest =>
+    let inp := input rest
+    let impl := " ".intercalate (rest.dropWhile (· ≠ "IMPL") |>.drop 1 |>.takeWhile (· ≠ "##"))
+    let model := Rewriter.handle (inp ++ ["FIXED", if fx.f10 then "1" else "0"])
+    let spec := Rewriter.handle ("SPEC" :: inp)
+    let same := Rewriter.handle ("SAMETRIE" :: inp)
+    (st, s!"rewrite {id} MODEL {model} P C17={if spec == impl then "1" else "0"} SAMETRIE={same}")
+  | "corpus" :: id :: rest => (st, s!"corpus {id} MODEL {Corpus.handle (input rest)}")
   | s :: id :: _ => (st, s!"{s} {id} MODEL unknown-stream")
   | _ => (st, "? ? MODEL badline")
 
